@@ -3,7 +3,7 @@ import base64
 
 import gen
 import vlib
-from vlib import Recorder, Report, b2l, call, exc_info
+from vlib import Recorder, Report, b2l, call, exc_info, text
 from props import c13
 
 
@@ -18,13 +18,14 @@ def drive(tier):
     keys = c13.secrets(r, 2 if tier == "quick" else 40)
     if tier == "quick":
         keys = keys[:3] + keys[10:13] + keys[-2:]
-    msgs = ["", "a", "hello world", "x" * 252, "y" * 253, "z" * 300, "héllo wörld ☃ \U0001F600", "line1\nline2", "Bitcoin Signed Message:\n"]
+    msgs = ["", "a", "hello world", "x" * 252, "y" * 253, "z" * 300, "héllo wörld ☃ \U0001F600", "line1\nline2", "Bitcoin Signed Message:\n",
+            "e\u0301 decomposed", "\u1100\u1161\u11a8 jamo", "\u212b \u2126 compatibility", "A\u030a", "\ufb01 ligature \u00bd"]
     others = [CBitcoinSecret.from_secret_bytes(gen.rbytes(r, 32), bool(i & 1)) for i in range(5)]
     for ki, sec in enumerate(keys):
         for comp in (True, False):
             key = CBitcoinSecret.from_secret_bytes(sec, comp)
             addr = P2PKHBitcoinAddress.from_pubkey(key.pub)
-            for mi, m in enumerate(msgs if tier == "thorough" else [msgs[(ki + mi0) % len(msgs)] for mi0 in (0, 3)]):
+            for mi, m in enumerate(msgs if tier == "thorough" else [msgs[(ki + mi0) % len(msgs)] for mi0 in (0, 3, 9 + ki % 5)]):
                 bm = BitcoinMessage(m)
                 kk, sig = call(SignMessage, key, bm)
                 if kk == "exc":
@@ -36,12 +37,16 @@ def drive(tier):
 
                 def ver(a, mm, s):
                     kk2, res = call(VerifyMessage, a, BitcoinMessage(mm), s)
-                    R.add("msg.verify", {"h160": b2l(a.to_bytes()), "msg": b2l(mm.encode("utf8")), "sig": b2l(base64.b64decode(s))},
-                          {"k": "ret", "res": bool(res)} if kk2 == "ret" else dict(exc_info(res), k="exc"), _cost=1500)
+                    R.add("msg.verify", {"addr": text(str(a)), "msg": b2l(mm.encode("utf8")), "sig": b2l(base64.b64decode(s))},
+                          {"k": "ret", "res": bool(res)} if kk2 == "ret" else dict(exc_info(res), k="exc"), chain="mainnet", _cost=1500)
                 ver(addr, m, sig)                                        # the signer's address
                 # other keys' addresses, and the signer's key in the other compression form
                 alt = [P2PKHBitcoinAddress.from_pubkey(o.pub) for o in (others if tier == "thorough" else others[:2])]
                 alt.append(P2PKHBitcoinAddress.from_pubkey(CBitcoinSecret.from_secret_bytes(sec, not comp).pub))
+                # other address kinds carrying the signer's own hash160
+                from bitcoin.wallet import P2SHBitcoinAddress, P2WPKHBitcoinAddress
+                alt.append(P2SHBitcoinAddress.from_bytes(addr.to_bytes()))
+                alt.append(P2WPKHBitcoinAddress.from_bytes(0, addr.to_bytes()))
                 for a in alt:
                     ver(a, m, sig)
                 # perturbed messages
